@@ -1,0 +1,13 @@
+//go:build verif
+
+package generator
+
+// VerifTemplateHook, when set, is called with the name of every template
+// ExecuteTemplate is asked to run. Verification builds only (-tags verif).
+var VerifTemplateHook func(name string)
+
+func verifTemplate(name string) {
+	if h := VerifTemplateHook; h != nil {
+		h(name)
+	}
+}
